@@ -33,6 +33,9 @@ class Interp:
         self.call_depth = 0
         self.ghost_hooks = {}  # (qualname, 'after_call', ordinal) -> callable
         self.events = []
+        self.n_awaits = 0  # suspension points passed on this path
+        self.read_at = {}  # field name -> n_awaits at its latest read (atomicity obligations)
+        self.stores = []  # (dict type name, n_awaits) for every store into a heap dict
 
     # ------------------------------------------------------------------ heap
     def hget(self, name, sort, heap=None):
@@ -181,6 +184,8 @@ class Interp:
             if self.c.branch(isn, f"{attr}-is-None"):
                 return None
         term = z3.Select(self.hget(name, arr(Ref, sort_of(inner)), heap), obj.ref)
+        if not spec:
+            self.read_at[name] = self.n_awaits
         if inner.kind in ("obj", "dict", "opaque"):
             self.closed_fact(name, obj.ref, inner)  # also at reads made by contract clauses: the fact is about the WF snapshots
         return self.wrap(term, inner, fr)
@@ -271,6 +276,7 @@ class Interp:
         return self.wrap(z3.Select(self.d_map(d), kt), d.typ.args[1])
 
     def d_setitem(self, d, k, v):
+        self.stores.append((tname(d.typ), self.n_awaits, dict(self.read_at)))
         kt = self.to_term(k, d.typ.args[0])
         self.d_set_dom(d, z3.Store(self.d_dom(d), kt, z3.BoolVal(True)))
         self.d_set_map(d, z3.Store(self.d_map(d), kt, self.to_term(v, d.typ.args[1])))
@@ -778,6 +784,7 @@ class Interp:
         return self.do_await(v, fr, n)
 
     def do_await(self, v, fr, node=None):
+        self.n_awaits += 1
         if self.await_hook is not None:
             self.awaiting = v
             self.await_hook(self, node, fr)
@@ -1060,7 +1067,36 @@ class Interp:
     def ex_Pass(self, s, fr):
         pass
 
+    def comprehension_as_loop(self, s, fr):
+        """`D = {K: V for T in X [if C]}` over a symbolic dict whose shape the comprehension model does not cover (V is a call, K
+        an attribute of the element ...) is executed as the loop `D = {}; for T in X: [if C:] D[K] = V`, so that the loop contract
+        written for the hand-written form of the same loop applies."""
+        if not (isinstance(s.value, ast.DictComp) and len(s.targets) == 1 and isinstance(s.targets[0], ast.Name)
+                and len(s.value.generators) == 1 and not s.value.generators[0].is_async):
+            return False
+        comp, g, name = s.value, s.value.generators[0], s.targets[0].id
+        simple = (isinstance(comp.key, ast.Name) and isinstance(comp.value, ast.Name))
+        if simple:
+            return False  # the comprehension model's own shape
+        probe = self.ev(g.iter, fr)
+        if not self.lib.is_symbolic_iterable(self, probe):
+            return False
+        store = ast.Assign(targets=[ast.Subscript(value=ast.Name(id=name, ctx=ast.Load()), slice=comp.key, ctx=ast.Store())], value=comp.value)
+        body = [store]
+        for c in reversed(g.ifs):
+            body = [ast.If(test=c, body=body, orelse=[])]
+        loop = ast.For(target=g.target, iter=g.iter, body=body, orelse=[])
+        empty = ast.Assign(targets=[ast.Name(id=name, ctx=ast.Store())], value=ast.Dict(keys=[], values=[]))
+        for n in (store, loop, empty):
+            ast.copy_location(n, s)
+            ast.fix_missing_locations(n)
+        self.ex_Assign(empty, fr)
+        self.w.spec.exec_symbolic_for(self, loop, probe, fr)
+        return True
+
     def ex_Assign(self, s, fr):
+        if self.comprehension_as_loop(s, fr):
+            return
         v = self.ev(s.value, fr)
         if isinstance(v, LibObj) and v.kind == "local_dict" and v.heap is None and not v.py and fr.func is not None \
                 and len(s.targets) == 1 and isinstance(s.targets[0], ast.Name):
